@@ -163,6 +163,11 @@ class Env:
     def _floor(self):
         """magnitude floor of the replay tolerance: 1, or the largest input magnitude when ALL replay inputs are tiny
         (data given in tiny units must not make every comparison pass trivially)"""
+        if not getattr(self, "scale_aware", False):
+            # default: absolute floor 1.  Opt-in (E.scale_aware = True) for harnesses whose compared quantities all scale with the
+            # inputs (C09: reconstructions vs. data); on dimensionless quantities (cosines, relative errors) a floor that shrinks
+            # with tiny inputs turns benign sqrt(eps) cancellation into mismatches (two false alarms, DESIGN 9.3)
+            return 1.0
         f = getattr(self, "_floor_cache", None)
         if f is None:
             m = 0.0
@@ -351,6 +356,17 @@ class Env:
 
         assumptions = list(self._assumptions(groups)) + list(extra)
         goal = z3.Not(phi)
+        # polynomial / rational identities: bring every (dis)equality of the goal to `expanded numerator ~ 0` first.  An identity then
+        # simplifies to False without the solver.  (z3's own verdict on such goals depends on its term ordering, i.e. on what the worker
+        # process ran before: the same identity was `unsat` in 0.0 s in most runs and `unknown` after 20 s in one run out of six.)
+        if c.assume_defined:
+            try:
+                g0, _ = ratnorm.clear_denominators(c.resolve_abs(goal), force=True)
+                if z3.is_false(z3.simplify(g0)):
+                    c.stats.add("unsat", 0.0)
+                    return "unsat", None
+            except Exception:
+                pass
         attempts = []
         if c.assume_defined:
             # clear denominators in (dis)equalities: sound because every denominator is asserted non-zero
